@@ -3,6 +3,64 @@ use crate::ast::AggregateFunction;
 use crate::evaluator::{evaluate_expression_value, order_compare};
 use nervusdb_api::GraphSnapshot;
 
+/// Grouping key with a total equivalence that agrees with its hash.
+///
+/// `Value: Eq` is only declared on top of the derived `PartialEq` (NaN != NaN) while `Hash` feeds float
+/// bit patterns (0.0 and -0.0 are `==` but hash differently), so a plain `HashMap<Vec<Value>, _>` opens a
+/// new group for every NaN row and splits 0.0 / -0.0.  Keys are normalised (one NaN, -0.0 -> 0.0) and
+/// compared bit-wise instead.
+#[derive(Hash)]
+struct GroupKey(Vec<Value>);
+
+impl PartialEq for GroupKey {
+    fn eq(&self, other: &Self) -> bool {
+        self.0.len() == other.0.len()
+            && self
+                .0
+                .iter()
+                .zip(&other.0)
+                .all(|(l, r)| normalized_eq(l, r))
+    }
+}
+
+impl Eq for GroupKey {}
+
+fn normalize_key(value: &Value) -> Value {
+    match value {
+        Value::Float(f) if f.is_nan() => Value::Float(f64::NAN),
+        Value::Float(f) if *f == 0.0 => Value::Float(0.0),
+        Value::List(items) => Value::List(items.iter().map(normalize_key).collect()),
+        Value::Map(map) => Value::Map(
+            map.iter()
+                .map(|(k, v)| (k.clone(), normalize_key(v)))
+                .collect(),
+        ),
+        other => other.clone(),
+    }
+}
+
+/// Equality of two normalised values: floats by bit pattern, hence reflexive.
+fn normalized_eq(left: &Value, right: &Value) -> bool {
+    match (left, right) {
+        (Value::Float(l), Value::Float(r)) => l.to_bits() == r.to_bits(),
+        (Value::List(l), Value::List(r)) => {
+            l.len() == r.len() && l.iter().zip(r).all(|(a, b)| normalized_eq(a, b))
+        }
+        (Value::Map(l), Value::Map(r)) => {
+            l.len() == r.len()
+                && l.iter()
+                    .zip(r)
+                    .all(|((lk, lv), (rk, rv))| lk == rk && normalized_eq(lv, rv))
+        }
+        _ => left == right,
+    }
+}
+
+/// DISTINCT uses the same equivalence as grouping: `==`, with every NaN equal to every NaN.
+fn distinct_eq(left: &Value, right: &Value) -> bool {
+    normalized_eq(&normalize_key(left), &normalize_key(right))
+}
+
 pub(super) fn execute_aggregate<'a, S: GraphSnapshot + 'a>(
     snapshot: &'a S,
     input: Box<dyn Iterator<Item = Result<Row>> + 'a>,
@@ -11,7 +69,8 @@ pub(super) fn execute_aggregate<'a, S: GraphSnapshot + 'a>(
     params: &'a crate::query_api::Params,
 ) -> Box<dyn Iterator<Item = Result<Row>> + 'a> {
     // Collect all rows and group them
-    let mut groups: std::collections::HashMap<Vec<Value>, Vec<Row>> =
+    // normalised key -> (key values of the group's first row, rows)
+    let mut groups: std::collections::HashMap<GroupKey, (Vec<Value>, Vec<Row>)> =
         std::collections::HashMap::new();
     let mut total_rows: usize = 0;
 
@@ -40,7 +99,11 @@ pub(super) fn execute_aggregate<'a, S: GraphSnapshot + 'a>(
             })
             .collect();
 
-        groups.entry(key).or_default().push(row);
+        groups
+            .entry(GroupKey(key.iter().map(normalize_key).collect()))
+            .or_insert_with(|| (key, Vec::new()))
+            .1
+            .push(row);
         total_rows = total_rows.saturating_add(1);
         if let Err(err) = params.check_collection_size("Aggregate.groups", groups.len()) {
             return Box::new(std::iter::once(Err(err)));
@@ -52,13 +115,13 @@ pub(super) fn execute_aggregate<'a, S: GraphSnapshot + 'a>(
 
     // Cypher aggregate semantics: no grouping keys still yields one row on empty input.
     if groups.is_empty() && group_by.is_empty() {
-        groups.insert(Vec::new(), Vec::new());
+        groups.insert(GroupKey(Vec::new()), (Vec::new(), Vec::new()));
     }
 
     // Convert to result rows
     let results: Vec<Result<Row>> = groups
         .into_iter()
-        .map(|(key, rows)| {
+        .map(|(_, (key, rows))| {
             params.check_timeout("Aggregate.finalize")?;
             // Build group key row
             let mut result = Row::default();
@@ -95,7 +158,10 @@ pub(super) fn execute_aggregate<'a, S: GraphSnapshot + 'a>(
                             if value == Value::Null {
                                 continue;
                             }
-                            if !distinct_values.iter().any(|existing| existing == &value) {
+                            if !distinct_values
+                                .iter()
+                                .any(|existing| distinct_eq(existing, &value))
+                            {
                                 distinct_values.push(value);
                                 params.check_collection_size(
                                     "Aggregate.count_distinct",
@@ -141,7 +207,10 @@ pub(super) fn execute_aggregate<'a, S: GraphSnapshot + 'a>(
                             if value == Value::Null {
                                 continue;
                             }
-                            if !distinct_values.iter().any(|existing| existing == &value) {
+                            if !distinct_values
+                                .iter()
+                                .any(|existing| distinct_eq(existing, &value))
+                            {
                                 distinct_values.push(value);
                                 params.check_collection_size(
                                     "Aggregate.sum_distinct",
@@ -201,7 +270,10 @@ pub(super) fn execute_aggregate<'a, S: GraphSnapshot + 'a>(
                             if value == Value::Null {
                                 continue;
                             }
-                            if !distinct_values.iter().any(|existing| existing == &value) {
+                            if !distinct_values
+                                .iter()
+                                .any(|existing| distinct_eq(existing, &value))
+                            {
                                 distinct_values.push(value);
                                 params.check_collection_size(
                                     "Aggregate.avg_distinct",
@@ -242,7 +314,10 @@ pub(super) fn execute_aggregate<'a, S: GraphSnapshot + 'a>(
                             if value == Value::Null {
                                 continue;
                             }
-                            if !distinct_values.iter().any(|existing| existing == &value) {
+                            if !distinct_values
+                                .iter()
+                                .any(|existing| distinct_eq(existing, &value))
+                            {
                                 distinct_values.push(value);
                                 params.check_collection_size(
                                     "Aggregate.min_distinct",
@@ -273,7 +348,10 @@ pub(super) fn execute_aggregate<'a, S: GraphSnapshot + 'a>(
                             if value == Value::Null {
                                 continue;
                             }
-                            if !distinct_values.iter().any(|existing| existing == &value) {
+                            if !distinct_values
+                                .iter()
+                                .any(|existing| distinct_eq(existing, &value))
+                            {
                                 distinct_values.push(value);
                                 params.check_collection_size(
                                     "Aggregate.max_distinct",
@@ -303,7 +381,10 @@ pub(super) fn execute_aggregate<'a, S: GraphSnapshot + 'a>(
                             if value == Value::Null {
                                 continue;
                             }
-                            if !distinct_values.iter().any(|existing| existing == &value) {
+                            if !distinct_values
+                                .iter()
+                                .any(|existing| distinct_eq(existing, &value))
+                            {
                                 distinct_values.push(value);
                                 params.check_collection_size(
                                     "Aggregate.collect_distinct",
